@@ -2,9 +2,15 @@
 package c16
 
 import (
+	"io"
+	"net/http"
+
 	"context"
 	"encoding/json"
 	"fmt"
+	"github.com/getkin/kin-openapi/openapi3filter"
+	"github.com/getkin/kin-openapi/routers"
+	"github.com/getkin/kin-openapi/routers/gorillamux"
 	"net/url"
 	"os"
 	"strings"
@@ -256,7 +262,109 @@ func check(c Case) (o h.Outcome) {
 			}
 		}
 	}
+	// I6: requests and responses receive the same verdicts from the original and from the reloaded
+	// internalised document
+	if origValid == nil {
+		trafficEquivalence(&o, orig, re)
+	}
 	return
+}
+
+var trafficValues = []string{`"s"`, `1`, `true`, `null`, `{}`, `[]`, `{"a":1,"inner":"x","deep":2}`, `["x"]`, `[1]`, `[[1]]`, `{"inner":{}}`, `1.5`}
+
+// trafficEquivalence sends the same requests and responses through both documents: every operation,
+// JSON bodies of every JSON type, and the declared query parameters carrying the same texts.
+func trafficEquivalence(o *h.Outcome, a, b *openapi3.T) {
+	ra, errA := gorillamux.NewRouter(a)
+	rb, errB := gorillamux.NewRouter(b)
+	if errA != nil || errB != nil {
+		if (errA == nil) != (errB == nil) {
+			o.Fail("traffic:router-differs", "router construction differs: original %v, internalised %v", errA, errB)
+		}
+		return
+	}
+	n := 0
+	for _, path := range jv.Keys(pathsOf(a)) {
+		item := a.Paths.Value(path)
+		if item == nil {
+			continue
+		}
+		for _, method := range jv.Keys(opsOf(item)) {
+			for vi, text := range trafficValues {
+				if n >= 240 {
+					return
+				}
+				n++
+				q := ""
+				for _, pr := range append(append(openapi3.Parameters{}, item.Parameters...), item.GetOperation(method).Parameters...) {
+					if pr != nil && pr.Value != nil && pr.Value.In == "query" {
+						q += "&" + pr.Value.Name + "=" + []string{"s", "1", "", "true"}[vi%4]
+					}
+				}
+				url := "http://localhost" + strings.NewReplacer("{", "", "}", "").Replace(path)
+				if q != "" {
+					url += "?" + q[1:]
+				}
+				verdict := func(router routers.Router) string {
+					req, _ := http.NewRequest(method, url, strings.NewReader(text))
+					req.Header.Set("Content-Type", "application/json")
+					route, pp, err := router.FindRoute(req)
+					if err != nil {
+						return "no-route"
+					}
+					in := &openapi3filter.RequestValidationInput{Request: req, PathParams: pp, Route: route, Options: &openapi3filter.Options{AuthenticationFunc: openapi3filter.NoopAuthenticationFunc}}
+					v := "req-ok"
+					var rerr error
+					if !o.Guarded("ValidateRequest", func() { rerr = openapi3filter.ValidateRequest(context.Background(), in) }) {
+						return "panic"
+					}
+					if rerr != nil {
+						v = "req-bad"
+					}
+					for _, status := range []int{200, 404} {
+						rin := &openapi3filter.ResponseValidationInput{RequestValidationInput: in, Status: status, Header: http.Header{"Content-Type": []string{"application/json"}, "X-H": []string{[]string{"s", "1"}[vi%2]}}, Body: io.NopCloser(strings.NewReader(text)), Options: &openapi3filter.Options{IncludeResponseStatus: true}}
+						var perr error
+						if !o.Guarded("ValidateResponse", func() { perr = openapi3filter.ValidateResponse(context.Background(), rin) }) {
+							return "panic"
+						}
+						if perr != nil {
+							v += fmt.Sprintf(",resp%d-bad", status)
+						} else {
+							v += fmt.Sprintf(",resp%d-ok", status)
+						}
+					}
+					return v
+				}
+				va, vb := verdict(ra), verdict(rb)
+				if o.Violation != "" {
+					return
+				}
+				if va != vb {
+					o.Fail("traffic-verdict-differs", "%s %s with body %s: the original document gives %s, the internalised one %s", method, url, text, va, vb)
+					return
+				}
+				o.Class("traffic:%s", strings.SplitN(va, ",", 2)[0])
+			}
+		}
+	}
+}
+
+func pathsOf(d *openapi3.T) map[string]any {
+	out := map[string]any{}
+	if d.Paths != nil {
+		for k := range d.Paths.Map() {
+			out[k] = true
+		}
+	}
+	return out
+}
+
+func opsOf(item *openapi3.PathItem) map[string]any {
+	out := map[string]any{}
+	for m := range item.Operations() {
+		out[m] = true
+	}
+	return out
 }
 
 func refClass(r string) string {
